@@ -5,6 +5,8 @@ from checks import route_common as RC
 from checks import c03
 from checks import simplify
 
+_SIMPLIFY_DONE = []
+
 PID = 'C10'
 NT = os.path.join(V.SPEC, 'avoid', 'Nudge.tla')
 ND = {0: 4, 1: 2, 2: 10, 3: 1}      # idealNudgingDistance selector of the harness (opts bits 5..6)
@@ -300,7 +302,10 @@ def main(tier):
         elif inv == 'LeftBeforeRight':
             vd.violation('assertion:vsi-1->id==channelLeftID', 'design model NudgeRanges.tla: variables %s, unsatisfied %s: %s' % (st.get('vs'), st.get('unsat'), st.get('bad')), st)
     # ---- beyond the statement: Polygon::simplify() and the checkpoint cache nudging relies on (Simplify.tla)
-    simplify.stage(ev, vd, V.rundir('c10simp'), tier == 'quick')
+    # (deterministic, no seed: once per process is enough when the thorough tier runs several rounds)
+    if not _SIMPLIFY_DONE:
+        simplify.stage(ev, vd, V.rundir('c10simp'), tier == 'quick')
+        _SIMPLIFY_DONE.append(1)
     ev.cov['evaluations'] = len(recs)
     ev.cov['distinct_nontrivial'] = nontriv
     ev.cov['traces_validated_against_impl'] = len(recs)
